@@ -24,6 +24,7 @@ struct Model {
     bool directed = true;
     unsigned n = 0;
     std::map<Key, MEdge> e;
+    std::map<Key, int> orphan; // absent pairs that were given a label by setEdgeLabel(force=true): label oracles do not apply
     long double absAdded = 0; // running magnitude of all weights ever added (rounding bound of C05)
     long mutations = 0;       // effective mutations so far
 
